@@ -1398,4 +1398,162 @@ def rule_identity_needs_rule(P):
     return R
 
 
-RULES = [rule_next_level, rule_terminal_type, rule_index_kind, rule_fold_zeros, rule_card_skipped, rule_mark_once, rule_array_extent, rule_position_kind, rule_operand_unpack, rule_chain_args, rule_compare_after_store, rule_skip_rule_consulted, rule_diagonal_lift, rule_identity_needs_rule]
+def _provenance(g, f, expr, depth=0, seen=None):
+    """where the value of an int expression comes from: {'param', 'domain', 'operand', 'const', '?'}"""
+    seen = seen if seen is not None else set()
+    t = _nz(expr)
+    out = set()
+    if re.search(r"getNodeLevel\(|\.getLevel\(\)|->getLevel\(\)", t):
+        out.add("operand")
+    if re.search(r"getMaxLevelIndex\(\)|getNumVariables\(\)", t):
+        out.add("domain")
+    t2 = re.sub(r"[\w:]+(?:->|\.)[\w:]+\((?:[^()]|\([^()]*\))*\)", " ", t)      # member calls handled above
+    params = {p_["name"] for p_ in f.get("params", [])}
+    for name in set(re.findall(r"(?<![\w.>])[A-Za-z_]\w*(?!\w*\()", t2)):
+        if name in ("ABS", "MAX", "MIN", "MDD_levels", "MXD_levels", "downLevel", "upLevel", "int", "unsigned", "this"):
+            continue
+        if name in params:
+            out.add("param")
+            continue
+        defs = [k for k in g.nodes if k.kind == "ldef" and k.ev["var"] == name and k.ev.get("rhs")]
+        if not defs:
+            out.add("?")
+            continue
+        if name in seen or depth > 6:
+            continue
+        seen.add(name)
+        for d in defs:
+            out |= _provenance(g, f, d.ev["rhs"], depth + 1, seen)
+    if not out:
+        out.add("const")
+    return out
+
+
+def rule_saturation_provenance(P, files=("operations/sat_pregen.cc", "operations/satur_sets.cc"), floor=5):
+    """saturation fires, at level k, the events filed under k on *every* node of level k — including the redundant nodes a fully-reduced set forest does
+    not store.  So the levels saturation works at must come down from the top of the domain through level parameters; a level read off an operand node
+    (getNodeLevel / getLevel) says where that node happens to sit, not which levels still have to be saturated.  Monolithic saturation is level-driven
+    (recFire(L, …) builds its result at L).  Partitioned saturation starts at the forest's top level (seed C20b started at the level of the initial
+    set's root) but its recFire builds the result at MAX(level of the set node, level of the relation node): when both skip a level the events of that
+    level are never fired on the result (triage/t30.cc — known finding)"""
+    R = RuleResult("level.saturation-provenance", "in the saturation operations (satur_sets.cc, sat_pregen.cc, forward): the level handed to the top-level saturate call, and the level of every result node that is created and then saturated, derive from level parameters or the domain's top level, never from the level of an operand node")
+    n = 0
+    seen = set()
+    for f in sorted(P.fns.values(), key=lambda f: (f["file"], f["line"], f["inst"])):
+        if not f.get("cfg") or f["file"] not in files or (f["file"], f["line"]) in seen:
+            continue
+        nm = base_name(f["q"]).split("::")[-1]
+        if "bckwd_" in f["q"]:
+            continue
+        g = None
+        short = base_name(f["q"]).replace(M, "")
+        # (a) entry points: compute(...) calling saturate / saturate_1 with a level
+        if nm == "compute":
+            g = Graph(f)
+            for k in g.nodes:
+                if k.kind == "call" and re.fullmatch(r"saturate(_1)?", k.ev["q"].split("::")[-1]) and len(k.ev["args"]) >= 2:
+                    a = [_nz(x) for x in k.ev["args"]]
+                    lv = [x for x in a if not re.search(r"getNode\(\)|^\w*[vV]$", x)]
+                    cand = a[0] if re.fullmatch(r"\w+", a[0]) and len(a) > 2 else a[1]
+                    prov = _provenance(g, f, cand)
+                    n += 1
+                    R.functions.add(f["inst"])
+                    R.paths += 1
+                    iid = "%s: top-level %s starts at `%s` (%s)" % (short, k.ev["q"].split("::")[-1], cand, "+".join(sorted(prov)))
+                    if "operand" in prov:
+                        R.fail(iid, where(f, k.line), Finding(R.rule, f["file"], base_name(f["q"]), "start-level",
+                               "saturation starts at `%s`, a level read off the operand: the levels above the root of a fully-reduced initial set are never saturated, so events whose top level is above that root are never fired" % cand, k.line))
+                    else:
+                        R.ok(iid, where(f, k.line))
+            seen.add((f["file"], f["line"]))
+            continue
+        if nm not in ("recFire", "saturate", "saturate_1"):
+            continue
+        seen.add((f["file"], f["line"]))
+        g = Graph(f)
+        made = {}
+        for k in g.nodes:
+            if k.kind == "ldef" and k.ev.get("rhs"):
+                m = re.match(r"(?:MEDDLY::)?unpacked_node::newWritable\((?:this->)?resF,([^,]+),", _nz(k.ev["rhs"]))
+                if m:
+                    made[k.ev["var"]] = (m.group(1), k)
+        for U, (lv, k) in sorted(made.items()):
+            handed = [x for x in g.nodes if x.kind == "call" and re.fullmatch(r"saturateHelper|saturate_1|_saturate_1", x.ev["q"].split("::")[-1]) and any(_nz(a_).lstrip("*") == U for a_ in x.ev["args"])]
+            if not handed:
+                continue
+            prov = _provenance(g, f, lv)
+            n += 1
+            R.functions.add(f["inst"])
+            R.paths += 1
+            iid = "%s: result node `%s` created at `%s` (%s) and saturated" % (short, U, lv, "+".join(sorted(prov)))
+            if "operand" in prov:
+                R.fail(iid, where(f, k.line), Finding(R.rule, f["file"], base_name(f["q"]), "result-level",
+                       "the result node is created at `%s`, computed from the levels of the operand nodes, and then saturated: when the set node and the relation node both skip a level (fully-reduced set forest, identity in the relation) the result skips it too, reads as `any value` there, and the events filed under that level are never fired on it" % lv, k.line))
+            else:
+                R.ok(iid, where(f, k.line))
+    if n < floor:
+        raise AnalysisBroken("level.saturation-provenance: only %d start / result levels found in %s, expected ≥%d" % (n, ", ".join(files), floor))
+    R.require_floor(floor, "start and result levels of the saturation operations")
+    return R
+
+
+def rule_saturation_provenance_monolithic(P):
+    """C08's share of level.saturation-provenance: the monolithic saturation only"""
+    return rule_saturation_provenance(P, files=("operations/satur_sets.cc",), floor=3)
+
+
+def rule_chain_from_built(P):
+    """makeRedundantsTo(p, K, L) / makeIdentitiesTo(p, K, L, in) / chainToLevel(p, K, L, in) add the levels above K: K is the level p sits at.  When p has
+    just come out of createReducedNode(U, ev, p) for a node U created here at level LV, K is LV — the signed level, primed levels included.  Seed C02c
+    chained the primed-variable node of createEdgeForVar from ABS(level): the unprimed level of that variable was skipped (a quasi-reduced forest then
+    holds an edge that skips a level, an identity-reduced one an illegal singleton edge)"""
+    R = RuleResult("level.chain-from-built", "wherever a node built here (U = newWritable(F, LV, …); createReducedNode(U, ev, p)) flows into makeRedundantsTo / makeIdentitiesTo / chainToLevel(p, K, …) without p being redefined on the way, K is the same expression as LV")
+    n = 0
+    seen = set()
+    CH = ("makeRedundantsTo", "makeIdentitiesTo", "chainToLevel")
+    for f in sorted(P.fns.values(), key=lambda f: (f["file"], f["line"], f["inst"])):
+        if not f.get("cfg") or (f["file"], f["line"]) in seen or f["file"].startswith("../"):
+            continue
+        evs = [e for b in f["cfg"]["blocks"] for e in b["ev"] if e["k"] == "call"]
+        if not any(e["q"].split("::")[-1] in CH for e in evs) or not any(e["q"].endswith("::createReducedNode") for e in evs):
+            continue
+        seen.add((f["file"], f["line"]))
+        g = Graph(f)
+        made = {}
+        for k in g.nodes:
+            if k.kind == "ldef" and k.ev.get("rhs"):
+                m = re.match(r"(?:MEDDLY::)?unpacked_node::newWritable\(([^,]+),([^,]+)[,)]", _nz(k.ev["rhs"]))
+                if m:
+                    made.setdefault(k.ev["var"], set()).add(m.group(2))
+        reds = [k for k in g.nodes if k.kind == "call" and k.ev["q"].endswith("::createReducedNode") and len(k.ev["args"]) >= 3 and _nz(k.ev["args"][0]) in made]
+        for c in g.nodes:
+            if c.kind != "call" or c.ev["q"].split("::")[-1] not in CH or len(c.ev["args"]) < 3:
+                continue
+            pv, K = _nz(c.ev["args"][0]), _nz(c.ev["args"][1])
+            if not re.fullmatch(r"\w+", pv):
+                continue
+            for r in reds:
+                if _nz(r.ev["args"][2]) != pv:
+                    continue
+                redefines = lambda x, r=r, c=c, pv=pv: x.id not in (r.id, c.id) and ((x.kind == "ldef" and x.ev["var"] == pv) or (x.kind == "call" and x.ev["q"].endswith("::createReducedNode") and len(x.ev["args"]) >= 3 and _nz(x.ev["args"][2]) == pv) or (x.kind == "call" and x.ev["q"].split("::")[-1] in CH and _nz(x.ev["args"][0]) == pv))
+                R.paths += 1
+                if not g.path(r.id, lambda x, c=c: x.id == c.id, avoid=redefines):
+                    continue
+                n += 1
+                R.functions.add(f["inst"])
+                lvs = made[_nz(r.ev["args"][0])]
+                iid = "%s: %s(%s, %s, …) after createReducedNode(%s built at %s)" % (base_name(f["q"]).replace(M, "")[:48], c.ev["q"].split("::")[-1], pv, K, _nz(r.ev["args"][0]), "/".join(sorted(lvs)))
+                # also accepted: K is a local defined as F->getNodeLevel(p) of this very node, i.e. its actual level
+                actual = any(d.kind == "ldef" and d.ev["var"] == K and re.fullmatch(r"\w+->getNodeLevel\(%s\)" % re.escape(pv), _nz(d.ev.get("rhs") or "")) for d in g.nodes) if re.fullmatch(r"\w+", K) else False
+                if K in lvs or actual:
+                    R.ok(iid, where(f, c.line), **({"by": "actual level of the node"} if actual and K not in lvs else {}))
+                else:
+                    R.fail(iid, where(f, c.line), Finding(R.rule, f["file"], base_name(f["q"]), "chain-from:" + c.ev["q"].split("::")[-1],
+                           "the node was built at level `%s` but is chained upwards from `%s`: if the two differ (a primed level and its absolute value, say) the levels between them are skipped or duplicated" % ("/".join(sorted(lvs)), K), c.line))
+    if n < 20:
+        raise AnalysisBroken("level.chain-from-built: only %d built-then-chained nodes found, expected ≥20" % n)
+    R.require_floor(20, "built-then-chained nodes")
+    return R
+
+
+RULES = [rule_next_level, rule_terminal_type, rule_index_kind, rule_fold_zeros, rule_card_skipped, rule_mark_once, rule_array_extent, rule_position_kind, rule_operand_unpack, rule_chain_args, rule_compare_after_store, rule_skip_rule_consulted, rule_diagonal_lift, rule_identity_needs_rule, rule_saturation_provenance, rule_chain_from_built]
